@@ -59,6 +59,7 @@ def _calc_spanning_tree ():
   switches = set()
   # Add all links and switches
   for l in core.openflow_discovery.adjacency:
+    if l.dpid1 == l.dpid2: continue # A switch cabled to itself
     adj[l.dpid1][l.dpid2].append(l)
     switches.add(l.dpid1)
     switches.add(l.dpid2)
